@@ -12,13 +12,22 @@ class CArr:
 
 
 class St:
-    __slots__ = ("env", "pc")
+    """env: variable -> value; pc: all facts of the path; dec: the branch decisions among them
+    (merge guards are built from decisions only, facts become guarded implications)."""
+    __slots__ = ("env", "pc", "dec")
 
-    def __init__(self, env, pc):
-        self.env, self.pc = dict(env), list(pc)
+    def __init__(self, env, pc, dec=()):
+        self.env, self.pc, self.dec = dict(env), list(pc), list(dec)
 
     def copy(self):
-        return St(self.env, self.pc)
+        return St(self.env, self.pc, self.dec)
+
+    def decide(self, cond):
+        self.pc.append(cond)
+        self.dec.append(cond)
+
+    def mark(self):
+        return (len(self.pc), len(self.dec))
 
 
 class Obl:
